@@ -14,7 +14,7 @@ import Mathlib.Topology.Algebra.InfiniteSum.Real
      stream only (`request_order_independent`); the same for arbitrary interleavings of the individual critical
      sections of several threads (`interleaved_ccdf`, `interleaved_weight`).  NOT history independent:
      the length of `weights(n)` (`weights_history_counterexample`) and `multi_invccdf_sorted`
-     (`multi_history_counterexample`).
+     (`multi_history_counterexample`; on a fresh sequence it is `map invccdf`: `multi_fresh`).
   2. Over the exact reals, breaks in (0,1): weights positive, below the remaining mass; remaining mass strictly
      decreasing; `Σ_{i<n} weight i + ccdf n = 1`; the weights sum to one iff the remaining mass tends to 0.
   3. `StickBreakingDiscrete`: `cdf n = Σ_{i≤n} f i`, `sf = 1 − cdf`, `invccdf p = min {n | sf n < p}` for `p ≤ 1`;
@@ -29,6 +29,10 @@ namespace C19
 open Hand.Stick Hand.Stick.Sbd
 
 
+/-! ### 1. determinism -/
+
+-- @site StickSequence::ccdf (and ensure_breaks, weight, weights; StickBreakingDiscrete::sf, cdf, invccdf)
+/-- one call from a state satisfying the prefix invariant: the invariant is kept and the answer is `Expected` -/
 theorem serve_spec {α : Type} [RealLike α] (breaks : Nat → α) (fuel : Nat) (s : S α) (r : Req α)
     (h : SInv breaks s) (hr : NoPush r) :
     SInv breaks (serve breaks fuel s r).2 ∧ Expected breaks r (serve breaks fuel s r).1 := by
@@ -114,7 +118,7 @@ theorem serve_spec {α : Type} [RealLike α] (breaks : Nat → α) (fuel : Nat) 
     | some s' => exact ⟨(extendUntil_spec breaks _ fuel s s' h he).1, trivial⟩
   | push p => exact absurd hr (by simp [NoPush])
 
--- @site StickSequence::{ensure_breaks, ccdf, weight, weights} / StickBreakingDiscrete::{sf, cdf, invccdf}
+-- @site StickSequence::ccdf (and ensure_breaks, weight, weights; StickBreakingDiscrete::sf, cdf, invccdf)
 /-- **determinism**: for every finite sequence of method calls in any order, starting from a fresh sequence,
     every answer is the function `Expected` of the break stream (hence of `(breaker, seed)`) alone -/
 theorem request_order_independent {α : Type} [RealLike α] (breaks : Nat → α) (fuel : Nat)
@@ -125,6 +129,26 @@ theorem request_order_independent {α : Type} [RealLike α] (breaks : Nat → α
   | cons r rs ih =>
     obtain ⟨h1, h2⟩ := serve_spec breaks fuel s r hs (hr r (List.mem_cons_self ..))
     exact List.Forall₂.cons h2 (ih (fun r' hr' => hr r' (List.mem_cons_of_mem _ hr')) _ h1)
+
+example : ∃ reqs : List (Req R), (∀ r ∈ reqs, NoPush r) ∧ reqs.length = 4 :=
+  ⟨[.weight 3, .ccdf 1, .invccdf ⟨0.5⟩, .weights 2], by intro r hr; simp at hr; rcases hr with rfl | rfl | rfl | rfl <;> trivial, rfl⟩
+
+-- @site StickBreakingDiscrete::invccdf
+/-- the value served for `invccdf p` is the pure function `Sbd.invccdf` of the ccdf sequence (any sufficient fuel) -/
+theorem served_invccdf {α : Type} [RealLike α] (breaks : Nat → α) (p : α) (v : Nat)
+    (h : Expected breaks (.invccdf p) (.nat v)) :
+    ∃ j, ∀ fuel', j ≤ fuel' → Sbd.invccdf (ccdfFn breaks) fuel' p = some v := by
+  rcases h with h | ⟨j, ⟨h1, h2⟩, h3⟩
+  · cases h
+  · injection h3 with h3
+    refine ⟨j, fun fuel' hf => ?_⟩
+    rw [Sbd.invccdf, firstBelow_of_isFirst (ccdfFn breaks) p fuel' 0 j h1 (fun i _ hi => h2 i hi)
+      (Nat.zero_le _) (by omega), h3]
+    rfl
+
+/-! ### 2. weights and remaining mass over the exact reals -/
+
+example : UnitBreaks (fun _ => (⟨1 / 2⟩ : R)) := fun _ => by norm_num
 
 -- @site StickSequence::ccdf
 theorem ccdf_pos (breaks : Nat → R) (hb : UnitBreaks breaks) (n : Nat) : 0 < (ccdfFn breaks n).val := by
@@ -200,7 +224,7 @@ theorem weights_hasSum (breaks : Nat → R) (hb : UnitBreaks breaks)
   rw [this]
   simpa using h0.const_sub 1
 
-/-! ### StickBreakingDiscrete -/
+/-! ### 3. StickBreakingDiscrete -/
 
 -- @site StickBreakingDiscrete::cdf
 /-- `cdf n = Σ_{i ≤ n} f i` -/
@@ -267,6 +291,8 @@ theorem invccdf_underflow_counterexample (breaks : Nat → R) (fuel : Nat) (p : 
     cases fuel <;> simp [firstBelow, h0]
   simp only [Sbd.invccdf, this, Option.map_some, subOneWrap_zero]
 
+example : ∃ p : R, 1 < p.val := ⟨⟨1.5⟩, by norm_num⟩
+
 -- @site StickBreakingDiscrete::invcdf
 /-- **quantile / cdf inconsistency at atoms**: `invcdf (cdf x) = x + 1`, not `x`: `invcdf q = min {n | cdf n > q}`
     (strict), whereas the quantile function of a discrete law is `min {n | cdf n ≥ q}` -/
@@ -285,6 +311,8 @@ theorem invcdf_cdf_counterexample (breaks : Nat → R) (hb : UnitBreaks breaks) 
   simp only [Sbd.invcdf, Sbd.invccdf, this, Option.map_some]
   rw [subOneWrap_pos _ (by omega) (by omega)]
   rfl
+
+/-! ### 4. threads: interleavings of the individual critical sections -/
 
 -- @site StickSequence::ccdf
 /-- **threads**: `ccdf(n)` is two critical sections (`ensure_breaks(n)` under the write guard, then a read).
@@ -326,6 +354,8 @@ theorem interleaved_weight {α : Type} [RealLike α] (breaks : Nat → α) (befo
         (fun b => a - b)) = _
   rw [sinv_get? breaks _ h3 n (by omega), sinv_get? breaks _ h3 (n + 1) hlen]
   rfl
+
+/-! ### 5. what is NOT history independent -/
 
 -- @site StickSequence::weights
 /-- **`weights(n)` depends on the call history**: it returns EVERY weight materialised so far, not the first
@@ -370,6 +400,92 @@ theorem multi_history_counterexample :
       List.zip_nil_right, multiOuter, multiInner, RealLike.gt, List.getD_cons_zero, lt_val, R.mul_val, one_valS]
     norm_num
 
+-- @site StickBreakingDiscrete::multi_invccdf_sorted
+/-- **`multi_invccdf_sorted` = `map invccdf`** (in the order of decreasing probability, as the rustdoc test
+    states) on an ascending slice of probabilities `≤ ccdf 0 = 1`, PROVIDED the stored vector is the minimal one
+    `[c 0, …, c m]` with `m` the first index below `ps[0]` — which is what `extend_until` leaves on a sequence that
+    was not materialised further before the call (`multi_history_counterexample` shows the proviso is needed) -/
+theorem multi_eq_map_invccdf (c : Nat → R) (ps : List R) (m fuel : Nat) (hne : ps ≠ [])
+    (hs : ps.Pairwise (fun a b => a.val ≤ b.val)) (h1 : ∀ p ∈ ps, ¬ (c 0).val < p.val)
+    (hm : IsFirstBelow c (ps.head hne) m) (hfuel : m ≤ fuel) (hf64 : fuel < 2 ^ 64) :
+    (multiRead ((List.range (m + 1)).map c) ps).map some = ps.reverse.map (Sbd.invccdf c fuel) := by
+  obtain ⟨hm1, hm2⟩ := hm
+  rw [R.lt_iff] at hm1
+  have hm0 : 1 ≤ m := by
+    by_contra hc
+    have : m = 0 := by omega
+    subst this; exact h1 _ (List.head_mem hne) hm1
+  have hlen : 0 < ps.length := List.length_pos_iff.mpr hne
+  have hqs : ((List.range (m + 1)).map c).drop 1 = (List.range m).map (fun i => c (i + 1)) := by
+    rw [List.range_succ_eq_map]; simp [Function.comp_def]
+  have hst : (ps.take (ps.length - 1 + 1)).reverse = ps.reverse := by
+    rw [Nat.sub_add_cancel hlen, List.take_length]
+  have hrne : ps.reverse ≠ [] := by simpa using hne
+  have hlastp : ps.reverse.getLast hrne = ps.head hne := by simp [List.getLast_reverse]
+  have hqne : (List.range m).map (fun i => c (i + 1)) ≠ [] := by
+    intro e
+    have := congrArg List.length e
+    simp at this; omega
+  rw [multiRead, hqs, enumL_eq, multiOuter_abs ps _ _ _ (by omega), hst,
+    absOuter_spec _ 0 ps.reverse [] hrne (by rw [List.pairwise_reverse]; exact hs) hqne
+      (by
+        intro q hq
+        rw [hlastp]
+        have hq' := List.mem_of_mem_dropLast hq
+        obtain ⟨i, hi, rfl⟩ := List.mem_map.mp hq'
+        -- `c (i+1)` is not the last element: it occurs in `dropLast`, so `i + 1 < m`
+        rw [List.dropLast_eq_take, List.length_map, List.length_range, ← List.map_take, List.take_range] at hq
+        obtain ⟨j, hj, hje⟩ := List.mem_map.mp hq
+        rw [List.mem_range] at hj
+        rw [← hje]
+        have := hm2 (j + 1) (by omega)
+        rwa [R.lt_false_iff] at this)
+      (by
+        rw [hlastp, List.getLast_map, List.getLast_range]
+        have : m - 1 + 1 = m := by omega
+        rw [this]; exact hm1)]
+  simp only [List.nil_append, List.map_map, Nat.zero_add]
+  apply List.map_congr_left
+  intro p hp
+  have hp' : p ∈ ps := List.mem_reverse.mp hp
+  have hge : (ps.head hne).val ≤ p.val := by
+    have := sorted_ge_last ps.reverse hrne (by rw [List.pairwise_reverse]; exact hs) p hp
+    rwa [hlastp] at this
+  simp only [Function.comp]
+  rw [invccdf_eq_idx c p m fuel (h1 p hp') (by linarith) hfuel hf64]
+
+-- @site StickBreakingDiscrete::multi_invccdf_sorted
+/-- on a FRESH sequence `multi_invccdf_sorted(ps)` is `map invccdf` over the reversed slice -/
+theorem multi_fresh (breaks : Nat → R) (p0 : R) (ps : List R) (fuel fuel' : Nat) (l : List Nat)
+    (hs : (p0 :: ps).Pairwise (fun a b => a.val ≤ b.val)) (h1 : ∀ p ∈ p0 :: ps, p.val ≤ 1)
+    (h : serveAll breaks fuel init [.multi p0 ps] = [.nats l]) (hf : fuel ≤ fuel') (hf64 : fuel' < 2 ^ 64) :
+    l.map some = (p0 :: ps).reverse.map (Sbd.invccdf (ccdfFn breaks) fuel') := by
+  simp only [serveAll, serve] at h
+  cases he : extendUntil breaks (fun cs => RealLike.lt (cs.getLastD RealLike.nan) p0) fuel init with
+  | none =>
+    simp only [he] at h
+    injection h with h _
+    cases h
+  | some s' =>
+    simp only [he] at h
+    injection h with h _
+    injection h with h
+    subst h
+    obtain ⟨hi, hpred, _⟩ := extendUntil_spec breaks _ fuel init s' (sinv_init breaks) he
+    obtain ⟨hd, hmin⟩ := extendUntil_min breaks p0 fuel init s' (sinv_init breaks) he
+    have hpred' : RealLike.lt (s'.ccdf.getLastD RealLike.nan) p0 = true := hpred
+    rw [sinv_last breaks s' hi] at hpred'
+    have hd' : s'.drawn ≤ fuel := by
+      have : (init : S R).drawn = 0 := rfl
+      omega
+    rw [hi]
+    exact multi_eq_map_invccdf (ccdfFn breaks) (p0 :: ps) s'.drawn fuel' (by simp) hs
+      (fun p hp => by rw [ccdf_zero_val]; exact not_lt.mpr (h1 p hp))
+      ⟨by simpa using hpred', fun i hi' => hmin i (Nat.zero_le _) hi'⟩ (by omega) hf64
+
+example : ∃ (p0 : R) (ps : List R), (p0 :: ps).Pairwise (fun a b => a.val ≤ b.val) ∧ ∀ p ∈ p0 :: ps, p.val ≤ 1 :=
+  ⟨⟨0.2⟩, [⟨0.5⟩, ⟨0.9⟩], by simp; norm_num, by intro p hp; simp at hp; rcases hp with rfl | rfl | rfl <;> norm_num⟩
+
 end C19
 
 #print axioms C19.serve_spec
@@ -395,3 +511,6 @@ end C19
 #print axioms C19.interleaved_weight
 #print axioms C19.weights_history_counterexample
 #print axioms C19.multi_history_counterexample
+#print axioms C19.served_invccdf
+#print axioms C19.multi_eq_map_invccdf
+#print axioms C19.multi_fresh
